@@ -111,7 +111,7 @@ pub fn plan(id: &str, tier: &str, seed: u64, round: u64) -> Plan {
                     // a quarter of the corpus uses the custom error, without default variants
                     if i % 4 == 3 {
                         c.parse_err = Some(true);
-                        c.allow_default = false;
+                        c.allow_default = i % 8 == 7;
                     }
                     gen::gen_string(&mut rg, &c)
                 })
@@ -250,6 +250,8 @@ pub fn plan(id: &str, tier: &str, seed: u64, round: u64) -> Plan {
                 c.derives = derives(sets[i % 5]);
                 c.allow_transparent = true;
                 c.allow_default = c.derives.iter().any(|d| d == "EnumString");
+                // a declared custom error must not disturb the catch-all
+                c.parse_err = Some(c.allow_default && i % 4 == 0);
                 let s = gen::gen_string(&mut rg, &c);
                 if s.variants.iter().any(|v| !v.disabled() && (v.is_default() || v.transparent())) {
                     specs.push(s);
